@@ -78,7 +78,15 @@ SizeClasses   == {"truncated", "negsize", "absurdsize", "nonnumsize"}
 \*          consumers take `take` entries; arg = <<item kind, n, take>>.  Decided here: PROGRESS - a reader goes round
 \*          the file again only after a pass that handed something out; a pass without ammo ends the run ("no ammo in
 \*          file").  The driver counts the rewinds of the file (file operations, not time).
-ParamAmmoClasses == {"cut", "long", "rerun", "degen"}
+\*   bufline: grpc/json read with the max_ammo_size option (the line buffer of its scanner); the item is the FIRST line
+\*          of the file.  arg = <<length of the line, option>>; the verdict is arithmetic: the line fits the buffer or not
+\*          (a line the scanner cannot produce cannot be skipped either - the reader does not find the next one).
+ParamAmmoClasses == {"cut", "long", "rerun", "degen", "bufline"}
+BufLineArgs == { <<l, b>> : l \in {"short", "70k"}, b \in {"default", "tiny", "large", "neg"} }
+LineLen(l)  == IF l = "short" THEN 100 ELSE 70000                      \* about; the margins are wide
+BufLimit(b) == CASE b = "default" -> 65536 [] b = "tiny" -> 50 [] b = "large" -> 100000 [] OTHER -> 0
+BufVerdict(a) == IF a[2] = "neg" THEN "either"                           \* a negative size: the statement does not say
+                 ELSE IF LineLen(a[1]) < BufLimit(a[2]) THEN "deliver" ELSE "reject"
 DegenKinds(f) == CASE f = "raw"      -> {"size0", "size0tag", "blank"}
                    [] f = "uripost"  -> {"blank", "hdronly"}
                    [] f = "uri"      -> {"blank", "hdronly"}
@@ -106,11 +114,23 @@ EofClasses    == {"trunc1", "mib_trunc", "big_trunc1", "big_trunc"}     \* the i
 \* hdr_tail: well-formed header lines ([X-Seq: late], [Host: evil...]) followed by a broken one - a malformed tail that
 \*           must not reach back into the entries already read;  hdr_late: the same header lines alone (legal, silent)
 HeaderClasses == {"hdr_nocolon", "hdr_nobracket", "hdr_emptykey", "hdr_tail"}
-JsonClasses   == {"badjson", "shape_array", "shape_type", "shape_scalar"}
+\* field-level JSON classes: the line is valid JSON and an object, ONE field has a value of the wrong JSON type
+\* (grpc/json: payload must be an object, metadata a map of strings, call and tag strings; http/json: headers a map of
+\* strings, uri / method / host / body / tag strings)
+GrpcFieldClasses == {"payload_scalar", "payload_array", "payload_string", "meta_list", "meta_nonstring", "meta_nested",
+                     "call_number", "tag_object"}
+HttpFieldClasses == {"hdr_list", "hdr_nonstring", "hdr_nested", "body_number", "body_object", "uri_number", "host_list",
+                     "method_number", "tag_number"}
+BaseJsonClasses  == {"badjson", "shape_array", "shape_type", "shape_scalar"}
+JsonClasses   == BaseJsonClasses \cup GrpcFieldClasses \cup HttpFieldClasses
+\* valid JSON objects the statement does not pin: a field given twice (with the same value), a field nobody knows, a
+\* null payload / null headers, no call at all: an entry like any other, or an error - never a crash
+EitherJsonClasses == {"dup_field", "extra_field", "field_null", "call_missing"}
 FieldClasses  == {"nouri", "badurl", "badmethod"}
 \* the FILE is well-formed, the `headers` option of the provider config is not (util.DecodeHTTPConfigHeaders)
 CfgClasses    == {"cfghdr_nocolon", "cfghdr_nobracket", "cfghdr_emptykey"}
 AmmoClasses   == {"none", "longline", "nullvalue", "badrequest"} \cup SizeClasses \cup HeaderClasses \cup JsonClasses \cup FieldClasses \cup CfgClasses
+                 \cup EitherJsonClasses
                  \cup BigOkClasses \cup EofClasses \cup {"size0", "hdr_late"} \cup ParamAmmoClasses
 
 Applies(f, c) ==
@@ -121,9 +141,14 @@ Applies(f, c) ==
       [] c = "long"          -> f = "grpcjson"
       [] c = "rerun"         -> TRUE
       [] c = "degen"         -> DegenKinds(f) # {}
+      [] c = "bufline"       -> f = "grpcjson"
       [] c = "hdr_late"      -> f \in {"uri", "uripost"}
       [] c \in HeaderClasses -> f \in {"uri", "uripost"}
-      [] c \in JsonClasses   -> f \in {"jsonline", "jsonarray", "grpcjson"}
+      [] c \in BaseJsonClasses  -> f \in {"jsonline", "jsonarray", "grpcjson"}
+      [] c \in GrpcFieldClasses -> f = "grpcjson"
+      [] c \in HttpFieldClasses -> f \in {"jsonline", "jsonarray"}
+      [] c = "call_missing"     -> f = "grpcjson"
+      [] c \in EitherJsonClasses \ {"call_missing"} -> f \in {"jsonline", "jsonarray", "grpcjson"}
       [] c = "nullvalue"     -> f \in {"jsonline", "jsonarray", "grpcjson"}
       [] c = "longline"      -> f # "jsonarray"
       [] c = "badrequest"    -> f = "raw"       \* right size, but the bytes are not an HTTP request
@@ -146,12 +171,13 @@ Verdict(f, c) ==
       [] c \in BigOkClasses \cup {"size0"} -> "deliver"
       [] c = "longline"  -> IF HasLineLimit(f) THEN "reject" ELSE "deliver"
       [] c = "nullvalue" -> "either"
+      [] c \in EitherJsonClasses -> "either"
       [] c = "hdr_late"  -> "silent"       \* legal header lines: nothing is delivered for them, nothing fails
       [] OTHER           -> "reject"
 
 \* verdict of a case (the parameterised classes look at c.arg)
 \* ("mustskip": the undecodable lines of a long continue-on-error file are stepped over, one by one)
-VerdictC(c) == IF c.cls = "degen" THEN "either" ELSE
+VerdictC(c) == IF c.cls = "degen" THEN "either" ELSE IF c.cls = "bufline" THEN BufVerdict(c.arg) ELSE
                IF c.cls = "cut" THEN (IF c.arg[1] = "body_nonl" THEN "deliver" ELSE "reject")
                ELSE IF c.cls = "long" THEN "mustskip"
                ELSE IF c.cls = "rerun" THEN Verdict(c.format, c.arg[1])
@@ -163,7 +189,7 @@ Limit(c) == IF c.cls = "rerun" THEN c.arg[3] ELSE 0
 
 \* continue-on-error can step over an item only when the reader can find the next one:
 \* a line that decodes badly, not a line the scanner could not even produce
-Skippable(f, c) == f = "grpcjson" /\ c \in JsonClasses \cup {"long"}
+Skippable(f, c) == f = "grpcjson" /\ c \in JsonClasses \cup EitherJsonClasses \cup {"long"}
 
 \* whole-file readers decode everything before the first delivery
 WholeFile(f, m) == f = "jsonarray" \/ m = "preload"
@@ -256,6 +282,9 @@ AmmoCases ==
     { [kind |-> "ammo", format |-> "grpcjson", mode |-> "continue", np |-> 0, cls |-> "long", nt |-> 0, arg |-> a] :
         a \in LongArgs }
     \cup
+    { [kind |-> "ammo", format |-> "grpcjson", mode |-> m, np |-> 0, cls |-> "bufline", nt |-> nt, arg |-> a] :
+        m \in Modes("grpcjson"), nt \in 0..MaxTrail, a \in BufLineArgs }
+    \cup
     UNION { { [kind |-> "ammo", format |-> f, mode |-> "stream", np |-> 0, cls |-> "degen", nt |-> 0, arg |-> a] :
                 a \in DegenArgs(f) } : f \in Formats }
 
@@ -267,6 +296,7 @@ AmmoCaseOK(c) ==
     /\ (c.cls = "cut"  => c.nt = 0 /\ c.arg \in CutArgs)
     /\ (c.cls = "rerun" => c.mode \in {"stream", "preload"} /\ c.arg \in RerunArgs(c.format))
     /\ (c.cls = "long" => c.np = 0 /\ c.nt = 0 /\ c.mode = "continue" /\ c.arg \in LongArgs)
+    /\ (c.cls = "bufline" => c.np = 0 /\ c.arg \in BufLineArgs)
     /\ (c.cls = "degen" => c.np = 0 /\ c.nt = 0 /\ c.mode = "stream" /\ c.arg \in DegenArgs(c.format))
     /\ (c.cls \notin ParamAmmoClasses => c.arg = <<>>)
 
@@ -487,7 +517,7 @@ MaySkip(c) ==
 ItemVerdicts(c) ==
     LET v == VerdictC(c) IN
     (IF v = "either" THEN {"deliver", "reject"} ELSE IF v = "mustskip" THEN {"skip"} ELSE {v})
-    \cup (IF v = "reject" /\ MaySkip(c) THEN {"skip"} ELSE {})
+    \cup (IF (v = "reject" \/ c.cls \in EitherJsonClasses) /\ MaySkip(c) THEN {"skip"} ELSE {})
 
 \* whole-file readers: one decode step over the complete file (s.loaded: "no" -> "with" / "without" the
 \* item), then plain deliveries; streaming readers decide at the item
